@@ -249,6 +249,9 @@ var nicePool = []string{"a", "b", "abc", "foo", "bar", "x1", "node", "eth0", "zz
 var hostilePool = []string{
 	"a/b", "a[b", "a]b", "a=b", `a\b`, `a"b`, "*", "..", "a b", " lead", "trail ", "é", "日本", "a]/b", "x//y", "[k=v]", "a\tb",
 	"5x", "-", "_", "a.b", "a:b", "a'b", "{", "a,b", "#1", "ünï", "a\nb", "%41", " ",
+	// strings that END in ":" + the name of an enumeration / identity value of the harness schemas (a string
+	// member of a union next to such a member must keep them as strings)
+	"a:b:ONE", "x::TWO", "1:2:CYAN", "u:v:ALPHA", "m:n:RED", "::AUTO",
 }
 
 // pickString draws a string satisfying the type's length and patterns, using
